@@ -70,7 +70,7 @@ db = None
 J = R = None
 KEYS = ('a', 'b', 'z')          # 'a', 'b' are present in every target dict except jd2 ('b' only); 'z' is absent everywhere
 
-DOC1 = {'a': [1, {'b': 2}, [3, 1]], 'b': {'a': 5, 'b': [6]}, 'c': 7}
+DOC1 = {'a': [1, {'b': 2}, [True, 1]], 'b': {'a': 5, 'b': [6]}, 'c': 7}      # [True, 1]: equal under ==, different when serialised
 DOC2 = [2, {'a': 1, 'b': [4]}, [3], 2]
 TAGS = [3, 1, 2, 1]
 NAMES = ['b', 'a', 'b']
@@ -398,6 +398,14 @@ def plain(x):
     return x
 
 
+def strict(x):
+    """type-strict image used to decide "changed": 1, True and 1.0 compare equal in Python but are different JSON / array values,
+    so a reorder that keeps the list `==` to its old self is still a change that must be persisted"""
+    if isinstance(x, dict): return {k: strict(v) for k, v in x.items()}
+    if isinstance(x, (list, tuple)): return [strict(v) for v in x]
+    return (type(x).__name__, x)
+
+
 def wrapped(x, o, attr):
     from pony.orm.ormtypes import TrackedValue
     if isinstance(x, (dict, list)):
@@ -432,16 +440,33 @@ def _queued(o):
     return False
 
 
-def mutate(target, table, op, A):
-    """one operation on a freshly loaded object; returns (M holds, W holds)"""
-    from pony.orm import db_session, rollback
+def mutate(target, table, op, A, state=0):
+    """one operation on a freshly loaded object; returns (M holds, W holds).
+    state 0: the object was loaded; 1: it was created and flushed in this session (status 'inserted'); 2: it was loaded, assigned
+    and flushed (status 'updated') - an in-place change after a flush must be queued for saving again"""
+    from pony.orm import db_session, rollback, flush
     _fresh()
     A.kind = KIND[target]
     with db_session:
         try:
             o, attr, aname, root, c, parent, key = _load(target)
-            if not (o._wbits_ == 0 and o._status_ == 'loaded' and wrapped(root, o, attr)): return False, False
-            before = plain(root)
+            if state:
+                ename, pk, _an, path = TARGETS[target]
+                if state == 1:
+                    E = J if ename == 'J' else R
+                    if ename == 'J': o = E(id=90, data=plain(root))
+                    else: o = E(id=90, tags=plain(o.tags), names=plain(o.names), vals=plain(o.vals))
+                else:
+                    _put(o, aname, plain(root))
+                flush()
+                root = _get(o, aname)
+                c, parent, key = root, None, None
+                for step in path:
+                    parent, key = c, step
+                    c = c[step]
+                if not (o._status_ == ('inserted' if state == 1 else 'updated') and not o._wbits_ and wrapped(root, o, attr)): return False, False
+            elif not (o._wbits_ == 0 and o._status_ == 'loaded' and wrapped(root, o, attr)): return False, False
+            before = strict(root)
             name, f = table[op]
             try:
                 if name.startswith('stmt_'): f(c, A, o, aname, parent, key)
@@ -450,11 +475,21 @@ def mutate(target, table, op, A):
                 pass
             now = o._vals_[attr]
             w = wrapped(now, o, attr)
-            if plain(now) == before:
+            if strict(now) == before:
                 return True, w
             return (bool(o._wbits_ & o._bits_[attr]) and o._status_ == 'modified' and _queued(o)), w
         finally:
             rollback()
+
+
+def _state_ops(t, op, state, v):
+    """the mutating operations on an object that was already flushed once in this session"""
+    st = 1 if state == 1 else 2
+    if t in DICT_TARGETS:
+        m, w = mutate(t, DICT_OPS, pick(op, 0, len(DICT_OPS) - 1), Args(k=0, v=v, shape=0, seq=0), state=st)
+    else:
+        m, w = mutate(t, LIST_OPS, pick(op, 0, len(LIST_OPS) - 1), Args(i=0, n=1, v=v, shape=0, seq=0), state=st)
+    return m
 
 
 def read(target, table, op, A):
@@ -466,11 +501,11 @@ def read(target, table, op, A):
             o, attr, aname, root, c, parent, key = _load(target)
             cache = o._session_cache_
             if not wrapped(root, o, attr): return False
-            before = plain(root)
+            before = strict(root)
             try: table[op][1](c, A)
             except Exception: pass
             return (o._wbits_ == 0 and o._status_ == 'loaded' and not _queued(o) and not cache.modified
-                    and not cache.objects_to_save and plain(o._vals_[attr]) == before)
+                    and not cache.objects_to_save and strict(o._vals_[attr]) == before)
         finally:
             rollback()
 
@@ -1050,7 +1085,62 @@ def d_read_jd1b(op: int, k: int, v: int, shape: int) -> bool:
     return ok(_d_read('jd1b', op, k, v, shape))
 
 
-HARNESSES = ['l_ops_jl0', 'l_ops_jl1', 'l_ops_jl2', 'l_ops_jl1b', 'l_ops_ia', 'l_ops_sa', 'l_ops_fa', 'l_slice_jl0', 'l_slice_jl1', 'l_slice_jl2', 'l_slice_jl1b', 'l_slice_ia', 'l_slice_sa', 'l_slice_fa', 'l_alias_jl0', 'l_alias_jl1', 'l_alias_jl2', 'l_alias_jl1b', 'l_alias_ia', 'l_alias_sa', 'l_alias_fa', 'l_wn_jl0', 'l_wn_jl1', 'l_wn_jl2', 'l_wn_jl1b', 'l_read_jl0', 'l_read_jl1', 'l_read_jl2', 'l_read_jl1b', 'l_read_ia', 'l_read_sa', 'l_read_fa', 'd_ops_jd0', 'd_ops_jd1', 'd_ops_jd2', 'd_ops_jd1b', 'd_alias_jd0', 'd_alias_jd1', 'd_alias_jd2', 'd_alias_jd1b', 'd_read_jd0', 'd_read_jd1', 'd_read_jd2', 'd_read_jd1b']
+
+def state_ops_jl1(op: int, state: int, v: int) -> bool:
+    """
+    pre: 0 <= op < len(LIST_OPS)
+    pre: 1 <= state <= 2
+    post: _
+    """
+    return ok(_state_ops('jl1', op, state, v))
+
+
+def state_ops_jl0(op: int, state: int, v: int) -> bool:
+    """
+    pre: 0 <= op < len(LIST_OPS)
+    pre: 1 <= state <= 2
+    post: _
+    """
+    return ok(_state_ops('jl0', op, state, v))
+
+
+def state_ops_jd1(op: int, state: int, v: int) -> bool:
+    """
+    pre: 0 <= op < len(DICT_OPS)
+    pre: 1 <= state <= 2
+    post: _
+    """
+    return ok(_state_ops('jd1', op, state, v))
+
+
+def state_ops_jd0(op: int, state: int, v: int) -> bool:
+    """
+    pre: 0 <= op < len(DICT_OPS)
+    pre: 1 <= state <= 2
+    post: _
+    """
+    return ok(_state_ops('jd0', op, state, v))
+
+
+def state_ops_ia(op: int, state: int, v: int) -> bool:
+    """
+    pre: 0 <= op < len(LIST_OPS)
+    pre: 1 <= state <= 2
+    post: _
+    """
+    return ok(_state_ops('ia', op, state, v))
+
+
+def state_ops_sa(op: int, state: int, v: int) -> bool:
+    """
+    pre: 0 <= op < len(LIST_OPS)
+    pre: 1 <= state <= 2
+    post: _
+    """
+    return ok(_state_ops('sa', op, state, v))
+
+
+HARNESSES = ['state_ops_jl1', 'state_ops_jl0', 'state_ops_jd1', 'state_ops_jd0', 'state_ops_ia', 'state_ops_sa', 'l_ops_jl0', 'l_ops_jl1', 'l_ops_jl2', 'l_ops_jl1b', 'l_ops_ia', 'l_ops_sa', 'l_ops_fa', 'l_slice_jl0', 'l_slice_jl1', 'l_slice_jl2', 'l_slice_jl1b', 'l_slice_ia', 'l_slice_sa', 'l_slice_fa', 'l_alias_jl0', 'l_alias_jl1', 'l_alias_jl2', 'l_alias_jl1b', 'l_alias_ia', 'l_alias_sa', 'l_alias_fa', 'l_wn_jl0', 'l_wn_jl1', 'l_wn_jl2', 'l_wn_jl1b', 'l_read_jl0', 'l_read_jl1', 'l_read_jl2', 'l_read_jl1b', 'l_read_ia', 'l_read_sa', 'l_read_fa', 'd_ops_jd0', 'd_ops_jd1', 'd_ops_jd2', 'd_ops_jd1b', 'd_alias_jd0', 'd_alias_jd1', 'd_alias_jd2', 'd_alias_jd1b', 'd_read_jd0', 'd_read_jd1', 'd_read_jd2', 'd_read_jd1b']
 
 if os.environ.get('C28_DEBUG'):
     import atexit
